@@ -180,6 +180,16 @@ func validateMXIDMappingSignatures(ctx context.Context, e PDU, mapping MXIDMappi
 		return err
 	}
 
+	// The mapping must be vouched for by the server of the user it names: otherwise a join whose
+	// mapping carries no signature at all (or only signatures of unrelated servers) would verify.
+	_, userServer, err := SplitID('@', mapping.UserID)
+	if err != nil {
+		return fmt.Errorf("failed to verify MXIDMapping: %w", err)
+	}
+	if _, ok := mapping.Signatures[userServer]; !ok {
+		return fmt.Errorf("failed to verify MXIDMapping: not signed by %q", userServer)
+	}
+
 	var toVerify []VerifyJSONRequest
 	for s := range mapping.Signatures {
 		v := VerifyJSONRequest{
